@@ -50,7 +50,7 @@ def _params_safe(gd):
     return True
 
 
-def inline_one(fd, gd, call_id):
+def inline_one(fd, gd, call_id, fmap=None):
     """Return a new function dict for the caller with g folded in at the call statement, or None."""
     fn = [dict(n) for n in fd["nodes"]]
     for n in fn:
@@ -103,6 +103,7 @@ def inline_one(fd, gd, call_id):
         return None
     gn = gd["nodes"]
     node_map = {}
+    as_macro = (not void) and pure
 
     def clone_f(i):
         """clone a subtree of the caller (an argument expression)"""
@@ -151,6 +152,15 @@ def inline_one(fd, gd, call_id):
             node_map[i] = new
             return new
         nd = dict(src)
+        if fmap is not None and "f" in nd:
+            nd["f"] = fmap(nd["f"])
+        if as_macro:
+            # an expression helper reads like the macro it may have replaced: its nodes carry the helper's name in their macro stacks
+            # (when the call is itself the whole body of a forwarding macro -- #define f(x) f_impl(x) -- that macro's name is enough)
+            fwd = bool(call.get("m")) and bool(call.get("me")) and call["m"][0] == call["me"][0]
+            mid = [] if fwd else [gd["name"]]
+            nd["m"] = list(src.get("m") or []) + mid + list(call.get("m") or [])
+            nd["me"] = list(src.get("me") or []) + mid + list(call.get("me") or [])
         new = len(fn)
         fn.append(nd)
         node_map[i] = new
@@ -184,6 +194,7 @@ def inline_one(fd, gd, call_id):
     elif pure:
         ret_new = node_map[value_root]
         val_new = fn[ret_new]["c"][0]
+        fn[ret_new]["c"] = []           # the returned expression has one parent: the place of the call
         cp = par_of[call_id]
         fn[cp]["c"] = [val_new if c == call_id else c for c in fn[cp]["c"]]
         node_map[value_root] = val_new
@@ -191,6 +202,7 @@ def inline_one(fd, gd, call_id):
         # the helper's statements go in front of the caller's statement; its returned expression takes the place of the call
         ret_new = node_map[value_root]
         val_new = fn[ret_new]["c"][0]
+        fn[ret_new]["c"] = []
         fn[body]["c"] = [c for c in fn[body]["c"] if c != ret_new]
         pos = fn[parent]["c"].index(stmt)
         fn[parent]["c"] = fn[parent]["c"][:pos] + [body] + fn[parent]["c"][pos:]
@@ -217,6 +229,8 @@ def inline_one(fd, gd, call_id):
         if key in host:
             post[key] = host[key]
             del host[key]
+    if not void and post.get("cond") == call_id:
+        post["cond"] = node_map[value_root]      # the call itself was the branch condition
     host["e"] = list(host["e"][:idx])
     g_entry, g_exit = gd["cfg"]["entry"], gd["cfg"]["exit"]
     host["s"] = [base + g_entry]
@@ -463,4 +477,57 @@ def normalise(program, Function):
         if hasattr(program, "_callers"):
             program._callers = None
         done.append((g.name, f.name))
+    # a NEW helper that is one `return e;` (what a macro turned into an inline function looks like) is an expression: every call is
+    # replaced by e, whatever the number of call sites and whichever unit they are in
+    for name in sorted(program.functions):
+        lst = program.functions.get(name) or []
+        if name in KNOWN or len(lst) != 1:
+            continue
+        g = lst[0]
+        if not g.static or not g.file.startswith("src/") or not g.d.get("cfg") or not _params_safe(g.d):
+            continue
+        gn = g.d["nodes"]
+        body = [c for c in gn[g.d["root"]].get("c", []) if gn[c].get("k") != "NullStmt"]
+        if len(body) != 1 or gn[body[0]].get("k") != "ReturnStmt" or not gn[body[0]].get("c"):
+            continue
+        if any(n.get("k") == "CallExpr" and n.get("callee") == name for n in gn):
+            continue
+        ok = True
+        n_sites = 0
+        for _ in range(200):
+            sites = [c for c in program.callers(name) if c.fn is not g]
+            if not sites:
+                break
+            c = sites[0]
+            f = c.fn
+
+            def fmap(idx, f=f, g=g):
+                path = g.files[idx] if 0 <= idx < len(g.files) else None
+                if path is None:
+                    return idx
+                if path in f.files:
+                    return f.files.index(path)
+                f.files.append(path)
+                return len(f.files) - 1
+            try:
+                nd = inline_one(f.d, g.d, c.id, fmap if f.unit != g.unit else None)
+                if nd is None:
+                    ok = False
+                    break
+                F = Function(nd, f.unit, f.files, f.config)
+                F.cfg
+            except Exception:
+                ok = False
+                break
+            l2 = program.functions[f.name]
+            l2[l2.index(f)] = F
+            if hasattr(program, "_callers"):
+                program._callers = None
+            n_sites += 1
+        if ok and n_sites and not [c for c in program.callers(name) if c.fn is not g]:
+            del program.functions[name]
+            program.n_functions -= 1
+            done.append((name, "%d call sites" % n_sites))
+        else:
+            KNOWN.add(name)
     return done
